@@ -50,32 +50,32 @@ def length (p : Icmp4) : Nat := byteAt p.un 1
 def hasExt (p : Icmp4) : Bool := !p.ext.exts.isEmpty
 
 /-- the body that follows the 8-byte header, by type -/
-def readBody (t : Nat) (c : Cursor) : Out (Bytes × Bytes × Bytes × Cursor) :=
+def readBody (t : Nat) (c : Cursor) : Out ((Bytes × Bytes × Bytes) × Cursor) :=
   if isTimestamp t then do
     let (o, c) ← c.read 4
     let (r, c) ← c.read 4
     let (x, c) ← c.read 4
-    pure (o, r, x, c)
+    pure ((o, r, x), c)
   else if isMask t then do
     let (o, c) ← c.read 4
-    pure (o, List.replicate 4 0, List.replicate 4 0, c)
-  else pure (List.replicate 4 0, List.replicate 4 0, List.replicate 4 0, c)
+    pure ((o, List.replicate 4 0, List.replicate 4 0), c)
+  else pure ((List.replicate 4 0, List.replicate 4 0, List.replicate 4 0), c)
 
 /-- `ICMP::ICMP(const uint8_t* buffer, uint32_t total_sz)` -/
-def parse (b : Bytes) : Out (Icmp4 × Inner) := do
+def parseHead (b : Bytes) : Out (Icmp4 × Cursor) := do
   let c := Cursor.ofBytes b
   let (t, c) ← c.readU8
   let (code, c) ← c.readU8
   let (check, c) ← c.readBE 2
   let (un, c) ← c.read 4
-  let (orig, recv, trans, c) ← readBody t c
+  let ((orig, recv, trans), c) ← readBody t c
   -- try_parse_extensions(stream)
   let (ext, c) ← if extAllowed t then tryParseExt c (byteAt un 1 * 4) ExtS.default else pure (ExtS.default, c)
-  let p : Icmp4 := ⟨t, code, check, un, orig, recv, trans, ext⟩
-  if c.toBool then
-    let rest ← Cursor.rest "ICMP::ICMP RawPDU" c
-    pure (p, .raw rest)
-  else pure (p, .none)
+  pure (⟨t, code, check, un, orig, recv, trans, ext⟩, c)
+
+def parse (b : Bytes) : Out (Icmp4 × Inner) := do
+  let (p, c) ← parseHead b
+  finishRaw "ICMP::ICMP RawPDU" p c
 
 def fields (p : Icmp4) : Fields :=
   [("type", toString p.type), ("code", toString p.code), ("~checksum", toString p.check)] ++
@@ -127,21 +127,25 @@ def writeExtPart (site : String) (s : ExtS) (inner : Option Nat) (align extOff b
         -- memset(extensions_ptr + inner_pdu_size, 0, inner_pdu_size - inner_pdu()->size());
         let r ← poke site r (extOff + ips) (List.replicate (ips - sz) 0)
         pure (r, extOff + ips)
-  -- extensions_.serialize(extensions_ptr, total_sz - (extensions_ptr - base));   (uint32_t parameter)
-  s.write r extOff ((r.length + 4294967296 - (extOff - bufBase)) % 4294967296)
+  -- extensions_.serialize(extensions_ptr, total_sz - (extensions_ptr - base)): a `uint32_t` parameter, so a pointer
+  -- past the end of the region wraps (total_sz itself is a uint32_t)
+  let used := extOff - bufBase
+  s.write r extOff (if used ≤ r.length then r.length - used else r.length + 4294967296 - used)
 
-/-- `ICMP::write_serialization` -/
-def write (cx : Ctx) (p : Icmp4) (region : Bytes) : Out Bytes := do
-  let inner := innerOf cx.innerSize
+/-- `ICMP::write_serialization`, first half: everything written through the `OutputMemoryStream` -/
+def writeHead (p : Icmp4) (inner : Option Nat) (region : Bytes) : Out OutCursor := do
   let un1 := patch p.un 1 [UInt8.ofNat (p.lengthFor inner)]
   let o ← (OutCursor.ofRegion region).write
     ([UInt8.ofNat p.type, UInt8.ofNat p.code, 0, 0] ++ un1)          -- header_.check = 0; stream.write(header_)
-  let o ← if isTimestamp p.type then do
-      let o ← o.write p.orig
-      let o ← o.write p.recv
-      o.write p.trans
-    else if isMask p.type then o.write p.orig
-    else pure o
+  if isTimestamp p.type then do
+    let o ← o.write p.orig
+    let o ← o.write p.recv
+    o.write p.trans
+  else if isMask p.type then o.write p.orig
+  else pure o
+
+/-- second half: RFC 4884 padding, extension structure and checksum through raw pointers -/
+def writeTail (p : Icmp4) (inner : Option Nat) (o : OutCursor) : Out Bytes := do
   let r := o.buffer
   let r ← if p.hasExt then
       -- uint8_t* extensions_ptr = stream.pointer(); … total_sz - (extensions_ptr - buffer)
@@ -149,6 +153,12 @@ def write (cx : Ctx) (p : Icmp4) (region : Bytes) : Out Bytes := do
     else pure r
   -- header_.check = ~Utils::sum_range(buffer, buffer + total_sz); memcpy(buffer + 2, &header_.check, 2);
   poke "ICMP::write_serialization checksum" r 2 (le16 (not16 (sumRange r)))
+
+/-- `ICMP::write_serialization` -/
+def write (cx : Ctx) (p : Icmp4) (region : Bytes) : Out Bytes := do
+  let inner := innerOf cx.innerSize
+  let o ← p.writeHead inner region
+  p.writeTail inner o
 
 def setUn (p : Icmp4) (off : Nat) (bs : Bytes) : Icmp4 := { p with un := patch p.un off bs }
 
